@@ -526,7 +526,10 @@ impl FixtureDatabase {
                 }
 
                 // Then add fixtures imported into the conftest
-                if self.file_cache.contains_key(&conftest_path) {
+                // Check both filesystem and file cache for conftest existence (same rule as
+                // find_closest_definition_with_filter): a closed or evicted conftest still
+                // provides its imported fixtures.
+                if conftest_path.exists() || self.file_cache.contains_key(&conftest_path) {
                     let mut visited = HashSet::new();
                     let imported_fixtures =
                         self.get_imported_fixtures(&conftest_path, &mut visited);
